@@ -14,7 +14,7 @@ struct Case {
   bool valid() const {
     if (!fam.valid() || merge < 0 || merge > 2 || dupsort < 0 || dupsort > 2 || path < 0 || path > 2 || fail_at < 1) return false;
     if (path == 2) {
-      if (merge != 1 || dupsort != 0 || fam.srcs.empty()) return false;
+      if (merge != 1 || dupsort != 0 || fam.srcs.empty() || fam.vmode) return false;  // the tool's merge DSO concatenates
       for (auto &s : fam.srcs)
         if (s.kind != 0) return false;
     }
@@ -53,8 +53,9 @@ struct Case {
 static Case gen_case() {
   Case c;
   c.path = weighted({70, 18, 12});
-  c.fam = gen_family(6, c.path != 2);
+  c.fam = gen_family(16, c.path != 2);
   if (c.path == 2) {
+    c.fam.vmode = 0;
     if (c.fam.srcs.empty()) {
       SrcSpec s;
       s.keys.push_back(bytes("a"));
@@ -126,7 +127,7 @@ static Result run_case(const Case &c) {
       unlink(outp.c_str());
     } else {
       struct mtbl_merger_options *mo = mtbl_merger_options_init();
-      if (c.merge) mtbl_merger_options_set_merge_func(mo, concat_merge, &mc);
+      if (c.merge) mtbl_merger_options_set_merge_func(mo, c.fam.merge_func(), &mc);
       if (c.dupsort) mtbl_merger_options_set_dupsort_func(mo, dupsort_bytewise, c.dupsort == 2 ? (void *)1 : nullptr);
       struct mtbl_merger *mg = mtbl_merger_init(mo);
       mtbl_merger_options_destroy(&mo);
@@ -218,8 +219,8 @@ static Result run_case(const Case &c) {
         }
         for (size_t i = 0; i < std::min(got.size(), expect_n) && !r.fail; i++) {
           if (got[i].first != model.e[i].first) r.failf("output %zu has key %s, expected %s", i, show(got[i].first).c_str(), show(model.e[i].first).c_str());
-          else if (!token_multiset_eq(got[i].second, model.e[i].second))
-            r.failf("key %s: merged value %s does not hold each source value exactly once (expected the tokens of %s)", show(got[i].first).c_str(),
+          else if (!c.fam.value_eq(got[i].second, model.e[i].second))
+            r.failf("key %s: merged value %s does not fold each source value exactly once (expected %s, up to token order)", show(got[i].first).c_str(),
                     show(got[i].second).c_str(), show(model.e[i].second).c_str());
         }
         if (!r.fail && c.path != 2 && !expect_fail) {
@@ -265,6 +266,8 @@ static Result run_case(const Case &c) {
     for (auto &s : c.fam.srcs)
       if (s.kind == 1) r.tag("user_defined_source");
     if (c.fam.has_dups_within_a_source()) r.tag("source_yielding_a_key_twice");
+    if (c.fam.vmode) r.tag("shrinking_merge_function");
+    if (c.fam.srcs.size() >= 7) r.tag("sources_ge7");
     r.tag("merge_" + std::to_string(c.merge));
     r.tag("dupsort_" + std::to_string(c.dupsort));
     r.tag("path_" + std::to_string(c.path));
